@@ -589,3 +589,74 @@ package types
 //@   trusted
 //@   purefn
 //@   assigns nothing
+
+// ---- C01: what a decision rests on ----
+// The commit a node stores as its justification is built from ONE vote set (one height, one round): it names that set's
+// two-thirds block id, has one entry per validator, and an entry counts for the block only if that validator's
+// precommit in this set is for exactly that block id.
+//@ func VoteSet.MakeCommit
+//@   assigns elems(CommitSig)
+//@   ensures id: result != nil && voteSet.maj23 != nil && result.BlockID.Hash == voteSet.maj23.Hash && result.BlockID.PartSetHeader.Total == voteSet.maj23.PartSetHeader.Total && result.BlockID.PartSetHeader.Hash == voteSet.maj23.PartSetHeader.Hash
+//@   ensures round: result.Height == voteSet.height && result.Round == voteSet.round && voteSet.signedMsgType == 2
+//@   ensures sigs: len(result.Signatures) == len(voteSet.votes) && forall(i, 0, len(voteSet.votes), result.Signatures[i].BlockIDFlag == 2 ==> (voteSet.votes[i] != nil && voteSet.votes[i].BlockID.Hash == voteSet.maj23.Hash && voteSet.votes[i].BlockID.PartSetHeader.Total == voteSet.maj23.PartSetHeader.Total && voteSet.votes[i].BlockID.PartSetHeader.Hash == voteSet.maj23.PartSetHeader.Hash && result.Signatures[i].Signature == voteSet.votes[i].Signature && result.Signatures[i].ValidatorAddress == voteSet.votes[i].ValidatorAddress))
+//@   grants from: madeFrom(result, voteSet)
+//@   loop 1 invariant idx: 0 <= rangeindex + 1 && rangeindex + 1 <= len(voteSet.votes) && len(commitSigs) == len(voteSet.votes) && fresh(commitSigs)
+//@   loop 1 invariant done: forall(i, 0, rangeindex + 1, commitSigs[i].BlockIDFlag == 2 ==> (voteSet.votes[i] != nil && voteSet.votes[i].BlockID.Hash == voteSet.maj23.Hash && voteSet.votes[i].BlockID.PartSetHeader.Total == voteSet.maj23.PartSetHeader.Total && voteSet.votes[i].BlockID.PartSetHeader.Hash == voteSet.maj23.PartSetHeader.Hash && commitSigs[i].Signature == voteSet.votes[i].Signature && commitSigs[i].ValidatorAddress == voteSet.votes[i].ValidatorAddress))
+//@ spec func madeFrom(c *Commit, vs *VoteSet) bool
+
+// The two-thirds block id of a vote set is fixed by the FIRST block whose tally reaches floor(2*total/3)+1 and never
+// changes afterwards; a block's tally grows only by the power of a validator that had no vote for that block yet.
+//@ func blockVotes.addVerifiedVote
+//@   requires idx: vote != nil && 0 <= vote.ValidatorIndex && vote.ValidatorIndex < len(vs.votes)
+//@   assigns vs.sum, elems(*Vote), elems(uint64)
+//@   ensures tally: vs.sum == old(vs.sum) + ite(old(vs.votes[vote.ValidatorIndex]) == nil, votingPower, 0)
+//@   ensures once: old(vs.votes[vote.ValidatorIndex]) != nil ==> vs.votes[vote.ValidatorIndex] == old(vs.votes[vote.ValidatorIndex])
+//@   ensures len: len(vs.votes) == old(len(vs.votes))
+//@ extern bits.BitArray.SetIndex
+//@   assigns elems(uint64)
+//@ func newBlockVotes
+//@   trusted
+//@   assigns nothing
+//@   ensures empty: result != nil && fresh(result) && result.sum == 0 && len(result.votes) == numValidators && result.peerMaj23 == peerMaj23 && fresh(result.votes) && forall(i, 0, numValidators, result.votes[i] == nil)
+//@ func VoteSet.addVerifiedVote
+//@   requires wf: vote != nil && voteSet.valSet != nil && 0 <= vote.ValidatorIndex && vote.ValidatorIndex < len(voteSet.votes) && len(voteSet.votes) == len(voteSet.valSet.Validators)
+//@   maintains tallies: forall(k, has(voteSet.votesByBlock, k) ==> (voteSet.votesByBlock[k] != nil && len(voteSet.votesByBlock[k].votes) == len(voteSet.valSet.Validators) && ref(voteSet.votesByBlock[k].votes) != ref(voteSet.votes)))
+//@   relies vals: wfPowers(voteSet.valSet) && wfCached(voteSet.valSet)
+//@   ensures fixed: old(voteSet.maj23) != nil ==> (voteSet.maj23 == old(voteSet.maj23) && voteSet.maj23.Hash == old(voteSet.maj23.Hash))
+//@   ensures quorum: (old(voteSet.maj23) == nil && voteSet.maj23 != nil) ==> (voteSet.maj23.Hash == vote.BlockID.Hash && has(voteSet.votesByBlock, blockKey) &&
+//@     | voteSet.votesByBlock[blockKey].sum >= totalPower(voteSet.valSet, len(voteSet.valSet.Validators)) * 2 / 3 + 1 && old(ite(has(voteSet.votesByBlock, blockKey), voteSet.votesByBlock[blockKey].sum, 0)) < totalPower(voteSet.valSet, len(voteSet.valSet.Validators)) * 2 / 3 + 1)
+//@   ensures tally: result0 ==> (has(voteSet.votesByBlock, blockKey) && voteSet.votesByBlock[blockKey].sum == old(ite(has(voteSet.votesByBlock, blockKey), voteSet.votesByBlock[blockKey].sum, 0)) + ite(old(has(voteSet.votesByBlock, blockKey) && voteSet.votesByBlock[blockKey].votes[vote.ValidatorIndex] != nil), 0, votingPower))
+//@   loop 1 invariant idx: 0 <= rangeindex + 1 && rangeindex + 1 <= len(votesByBlock.votes)
+//@   loop 1 invariant keep: voteSet.maj23 != nil && voteSet.maj23.Hash == old(vote.BlockID.Hash) && old(voteSet.maj23) == nil && len(voteSet.votes) == old(len(voteSet.votes))
+
+// A vote enters a vote set only if it is for exactly that set's height, round and type, comes from the validator at its
+// index in the set's validator set (same address), carries that validator's signature over the canonical bytes of
+// exactly this vote, and is tallied with exactly that validator's voting power.
+//@ extern crypto.PubKey.Address
+//@   assigns nothing
+//@ func Vote.ToProto
+//@   trusted
+//@   assigns nothing
+//@   ensures same: result != nil && result.Height == vote.Height && result.Round == vote.Round && result.Type == vote.Type && result.BlockID.Hash == vote.BlockID.Hash &&
+//@     | result.BlockID.PartSetHeader.Total == vote.BlockID.PartSetHeader.Total && result.BlockID.PartSetHeader.Hash == vote.BlockID.PartSetHeader.Hash && result.Timestamp == vote.Timestamp
+//@ func Vote.Verify
+//@   assigns nothing
+//@   ensures signed: result == nil ==> sigOK(pubKey, signBytes(chainID, int32(vote.Type), vote.Height, vote.Round, vote.BlockID.Hash, vote.BlockID.PartSetHeader.Total, vote.BlockID.PartSetHeader.Hash, vote.Timestamp), vote.Signature)
+//@ func ValidatorSet.GetByIndex
+//@   assigns nothing
+//@   ensures some: result1 != nil ==> (0 <= index && index < len(vals.Validators) && result0 == vals.Validators[index].Address && result1.VotingPower == vals.Validators[index].VotingPower && result1.PubKey == vals.Validators[index].PubKey)
+//@ func VoteSet.getVote
+//@   trusted
+//@   assigns nothing
+//@ func NewConflictingVoteError
+//@   trusted
+//@   assigns nothing
+//@ func VoteSet.addVote
+//@   relies size: voteSet.valSet != nil && len(voteSet.votes) == len(voteSet.valSet.Validators)
+//@   relies tallies: forall(k, has(voteSet.votesByBlock, k) ==> (voteSet.votesByBlock[k] != nil && len(voteSet.votesByBlock[k].votes) == len(voteSet.valSet.Validators) && ref(voteSet.votesByBlock[k].votes) != ref(voteSet.votes)))
+//@   relies vals: wfPowers(voteSet.valSet) && wfCached(voteSet.valSet)
+//@   atcall VoteSet.addVerifiedVote verified: arg1 == vote && arg1.Height == voteSet.height && arg1.Round == voteSet.round && arg1.Type == voteSet.signedMsgType &&
+//@     | 0 <= arg1.ValidatorIndex && arg1.ValidatorIndex < len(voteSet.valSet.Validators) && arg1.ValidatorAddress == voteSet.valSet.Validators[arg1.ValidatorIndex].Address &&
+//@     | arg3 == voteSet.valSet.Validators[arg1.ValidatorIndex].VotingPower &&
+//@     | sigOK(voteSet.valSet.Validators[arg1.ValidatorIndex].PubKey, signBytes(voteSet.chainID, int32(arg1.Type), arg1.Height, arg1.Round, arg1.BlockID.Hash, arg1.BlockID.PartSetHeader.Total, arg1.BlockID.PartSetHeader.Hash, arg1.Timestamp), arg1.Signature)
+//@   ensures added: result0 ==> old(vote != nil && vote.Height == voteSet.height && vote.Round == voteSet.round && vote.Type == voteSet.signedMsgType)
